@@ -24,7 +24,7 @@ def family(tier):
         if tier == 'quick':
             fam = fam[::6]
         else:
-            fam = fam[::4]
+            fam = fam[::16]
         _FAM[tier] = fam + list(outlines.HANDPICKED)
     return _FAM[tier]
 
@@ -149,7 +149,7 @@ HARNESSES = {'resume': resume}
 def shards(tier):
     fam = family(tier)
     g = GROUP[tier]
-    nh = 4 if tier == 'quick' else 12  # the first (smallest) outlines of the family get longer restore chains
+    nh = 4 if tier == 'quick' else 8  # the first (smallest) outlines of the family get longer restore chains
     out = []
     for lo in range(0, len(fam), g):
         fixed = dict(tq=TIERS.index(tier), lo=lo)
@@ -175,7 +175,7 @@ BOUNDS = {
     'quick': dict(outlines='every 6th outline (deterministic enumeration order) with <= 4 instructions, depth <= 2, >= 2 steps and >= 1 conditional, + 6 hand-picked deeper ones',
                   crash_points='one restore (chains of 2 for the 4 smallest outlines) at any state entry (CREATED and every RUNNING entry, i.e. every step boundary); snapshot = deep copy of Bundle taken in the ENTERED_STATE callback; each restore in a fresh event loop',
                   values=f'{NB} symbolic predicate values, {NR} symbolic step return codes (0 None, 1 empty ToContext, else stop with that int), derived from counters persisted in ctx'),
-    'thorough': dict(outlines='every 4th outline with <= 5 instructions, depth <= 2, >= 2 steps, >= 1 conditional', crash_points='chains of <= 2 restores (3 for the 12 smallest outlines)', values='as quick'),
+    'thorough': dict(outlines='every 16th outline with <= 5 instructions, depth <= 2, >= 2 steps, >= 1 conditional (+ 6 hand-picked)', crash_points='chains of <= 2 restores (3 for the 8 smallest outlines)', values='as quick'),
 }
 OUTSIDE = ['pickle / YAML as checkpoint medium (C07 covers the media; here data stays symbolic through deepcopy)', 'plain Process continuation chains (C13)',
            'steps whose behaviour depends on non-persisted state', 'awaitables across a checkpoint (futures are not persistable)']
